@@ -5,8 +5,8 @@
 (* Ground truth G = [tsmap, css, regions, cues]                            *)
 (*   tsmap   : <<>> or <<[local, mpegts]>>   (X-TIMESTAMP-MAP)             *)
 (*   css     : sequence of CSS line atoms of the STYLE block (<<>> = none) *)
-(*   regions : sequence (sorted by id) of [id, lines, width, scroll]       *)
-(*             lines = 0 / width, scroll = 0 mean "not given"              *)
+(*   regions : sequence (sorted by id) of [id, lines, width, scroll,       *)
+(*             anchor, viewport]; 0 means "not given"                      *)
 (*   cues    : sequence of [s, e, id, notes, set, region, lines]           *)
 (*       id = numeric identifier (0 = none); notes = comment line atoms;   *)
 (*       set = [align, line, position, size, vertical] value atoms (0 =    *)
@@ -32,7 +32,7 @@ TNote(a)       == [k |-> "note", a |-> a]
 TCont(a)       == [k |-> "cont", a |-> a]
 TStyle         == [k |-> "style"]
 TCss(a)        == [k |-> "css", a |-> a]
-TRegion(r)     == [k |-> "region", id |-> r.id, lines |-> r.lines, width |-> r.width, scroll |-> r.scroll]
+TRegion(r)     == [k |-> "region", id |-> r.id, lines |-> r.lines, width |-> r.width, scroll |-> r.scroll, anchor |-> r.anchor, viewport |-> r.viewport]
 TId(v)         == [k |-> "id", v |-> v]
 TTiming(c, hrs, tab) == [k |-> "timing", s |-> c.s, e |-> c.e, hrs |-> hrs, tab |-> tab, set |-> c.set, region |-> c.region]
 TText(voice, its) == [k |-> "text", voice |-> voice, its |-> its]
@@ -133,7 +133,8 @@ DecStep(d, t) ==
     [] t.k = "cont"   -> IF d.mode = "note" THEN [d EXCEPT !.notes = Append(@, t.a)] ELSE d
     [] t.k = "style"  -> [d EXCEPT !.mode = "style"]
     [] t.k = "css"    -> [d EXCEPT !.css = Append(@, t.a)]
-    [] t.k = "region" -> [d EXCEPT !.regions = Append(@, [id |-> t.id, lines |-> t.lines, width |-> t.width, scroll |-> t.scroll])]
+    [] t.k = "region" -> [d EXCEPT !.regions = Append(@, [id |-> t.id, lines |-> t.lines, width |-> t.width, scroll |-> t.scroll,
+                                                          anchor |-> t.anchor, viewport |-> t.viewport])]
     [] t.k = "id"     -> [d EXCEPT !.id = t.v]
     [] t.k = "timing" ->
          [d EXCEPT !.cues = Append(@, [s |-> t.s, e |-> t.e, id |-> d.id, notes |-> d.notes, set |-> t.set,
